@@ -444,6 +444,89 @@ def fam_captures_model(sess):
         sess.discharged('captures_model: the real DATE_REGEX captures the written fields for %d literal shapes' % len(shapes), family=fam, queries=len(shapes))
 
 
+# ------------------------------------------------------------------------------------------------ end to end
+def concrete_chrono():
+    """chrono on CONCRETE calendar fields (the query text is concrete, the entry times are concrete per node): the proleptic
+    Gregorian calendar of Python's datetime stands in for chrono's; UTC is the local zone (model and replay)"""
+    import datetime as _dt
+    base = [m_ for m_ in models() if not m_[2].startswith('regex:') and 'with_ymd_and_hms' not in m_[2]]
+
+    def ymd(ctx, args, callee):
+        y, mo, d, h, mi, s_ = [conc(a) for a in args[1:7]]
+        if y >= 2 ** 31:
+            y -= 2 ** 32
+        try:
+            day = _dt.date(y, mo, d).toordinal() - _dt.date(1970, 1, 1).toordinal()
+            if not (h < 24 and mi < 60 and s_ < 60):
+                raise ValueError
+        except (ValueError, OverflowError):
+            return EnumV(2, {2: []}, 'LocalResult')
+        return EnumV(0, {0: [DateC(BitVecVal(day, 64), u32(h), u32(mi), u32(s_))]}, 'LocalResult')
+
+    def fmt(ctx, args, callee):
+        d = ctx.deref(args[0]); f = as_str(ctx, args[1]).s
+        ts = z3.simplify(d.ts)
+        if f is None or not z3.is_bv_value(ts):
+            raise Unmodelled('NaiveDateTime::format of a symbolic instant')
+        t = ts.as_signed_long()
+        return Str((_dt.datetime(1970, 1, 1) + _dt.timedelta(seconds=t)).strftime(f))
+    return [(r'^<chrono::Local as TimeZone>::with_ymd_and_hms$', ymd, 'chrono:with_ymd_and_hms on concrete fields (proleptic Gregorian calendar, local zone = UTC)'),
+            (r'^NaiveDateTime::format$|^chrono::NaiveDateTime::format$', fmt, 'chrono:NaiveDateTime::format on a concrete instant (strftime)')] + base
+
+
+def _interval(lit):
+    import calendar
+    m = re.match(r'^(\d{4})[-:](\d{1,2})[-:](\d{1,2})(?: (\d{1,2}))?(?::(\d{1,2}))?(?::(\d{1,2}))?$', lit)
+    y, mo, d = int(m.group(1)), int(m.group(2)), int(m.group(3))
+    lo = [int(g) if g is not None else 0 for g in m.groups()[3:]]
+    hi = [int(g) if g is not None else top for g, top in zip(m.groups()[3:], (23, 59, 59))]
+    return calendar.timegm((y, mo, d, *lo)), calendar.timegm((y, mo, d, *hi))
+
+
+def _holds(op, t, lit):
+    a, b = _interval(lit)
+    return {'=': a <= t <= b, '!=': not a <= t <= b, '<': t < a, '>': t > b, '<=': t <= b, '>=': t >= a}[op]
+
+
+def e2e_queries():
+    from drivers import e2e
+    N, MT = e2e.NAMES, e2e.MTIMES
+    T = [e2e.epoch(x) for x in MT]
+    name = lambda i: N[i]
+
+    def where(conds, cols=None, join='and'):
+        def ref(v, k):
+            out = []
+            for i in v:
+                r = [_holds(op, T[i], lit) for op, lit in conds]
+                if all(r) if join == 'and' else any(r):
+                    out.append([N[i]] if cols is None else [c(i) for c in cols])
+            return out
+        return ref
+    return [("name from R0 where modified = 2021-12-31", where([('=', '2021-12-31')]), False),
+            ("name, modified from R0 where modified >= '2021-12-31 23' and modified <= '2021-12-31 23:59'",
+             where([('>=', '2021-12-31 23'), ('<=', '2021-12-31 23:59')], [name, lambda i: MT[i]]), False),
+            ("name from R0 where modified != '2021:12:31'", where([('!=', '2021-12-31')]), False),
+            ("name from R0 where modified < 2021-12-31 or modified > 2021-12-31", where([('<', '2021-12-31'), ('>', '2021-12-31')], join='or'), False),
+            ("name from R0 where modified lte '2021-12-30' or modified gte '2022-1-1 0:0'", where([('<=', '2021-12-30'), ('>=', '2022-01-01 0:0')], join='or'), False),
+            ("name, modified from R0 where modified = '2021-12-31 23:59:59' or modified = '2022-01-01 00'",
+             where([('=', '2021-12-31 23:59:59'), ('=', '2022-01-01 00')], [name, lambda i: MT[i]], join='or'), False),
+            ("modified, name from R0 order by modified desc, name", lambda v, k: [[MT[i], N[i]] for i in sorted(v, key=lambda i: (-T[i], N[i].encode()))], True),
+            ("name from R0 where modified > '2021-12-31 22' and modified < 2022-01-01", where([('>', '2021-12-31 22'), ('<', '2022-01-01')]), False),
+            ("name from R0 where modified != '2021-12-31 23:59:59' and modified <= '2021-12-31 23:59:59'", where([('!=', '2021-12-31 23:59:59'), ('<=', '2021-12-31 23:59:59')]), False)]
+
+
+def fam_e2e(sess):
+    """real main::exec_search on query TEXTS with date literals at day / hour / minute / second precision, quoted and unquoted, both
+    separators: the lexer's date-vs-minus decision, the parser, parse_datetime, the DateTime arm of conforms and the formatting of the
+    `modified` column meet here; entry times sit on both edges of the intervals"""
+    from drivers import e2e
+    qs = e2e_queries()
+    if sess.tier == 'quick':
+        qs = qs[:4]
+    e2e.family(sess, 'e2e', qs, extra=concrete_chrono())
+
+
 def main(sess):
     sess.engines = ['mirsym (MIR symbolic execution) + z3']
     sess.assumptions += [
@@ -464,3 +547,5 @@ def main(sess):
         fam_relative(sess)
     if not only or 'lexer_date' in only:
         fam_lexer_date(sess)
+    if not only or 'e2e' in only:
+        fam_e2e(sess)
